@@ -555,78 +555,82 @@ def run_case(case):
         except Exception as e:  # noqa
             return core.exc_name(e)
 
-    if emitter in ("class", "pydantic"):
-        cls = ns.get(node.name)
-        ann = dict(getattr(cls, "__annotations__", {}))
-        obs["annotations"] = [[k, repr(v)] for k, v in ann.items()]
-        # annotation object = eval of the emitted annotation expression (semantics), = eval of the described type string (oracle)
-        described = {n: p.get("typ") for n, p in case["ir"]["params"]}
-        if case["ir"]["returns"] is not None:
-            described["return_type"] = case["ir"]["returns"].get("typ")
-        obs["ann_is_described"] = {k: (same_obj(v, described[k]) if described.get(k) else None) for k, v in ann.items()}
-        obs["values"] = [[k, const_json(v)] for k, v in vars(cls).items() if not (k.startswith("__") and k.endswith("__"))]
-        obs["bases"] = [b.__name__ for b in cls.__bases__]
-    elif emitter == "function":
-        fn = ns.get(node.name)
-        sig = inspect.signature(fn)
-        kinds = {inspect.Parameter.POSITIONAL_OR_KEYWORD: "positional", inspect.Parameter.KEYWORD_ONLY: "kwonly",
-                 inspect.Parameter.VAR_KEYWORD: "varkw", inspect.Parameter.VAR_POSITIONAL: "varpos", inspect.Parameter.POSITIONAL_ONLY: "posonly"}
-        described = {n: p.get("typ") for n, p in case["ir"]["params"]}
-        ps = []
-        for p in sig.parameters.values():
-            ps.append({"name": p.name, "kind": kinds[p.kind],
-                       "default": None if p.default is inspect.Parameter.empty else const_json(p.default),
-                       "has_ann": p.annotation is not inspect.Parameter.empty,
-                       "ann_is_described": (same_obj(p.annotation, described[p.name]) if p.annotation is not inspect.Parameter.empty and described.get(p.name) else None)})
-        obs["sig"] = ps
-        obs["has_return_ann"] = sig.return_annotation is not inspect.Signature.empty
-        if obs["has_return_ann"] and case["ir"]["returns"] is not None and case["ir"]["returns"].get("typ"):
-            obs["return_is_described"] = same_obj(sig.return_annotation, case["ir"]["returns"]["typ"])
-    else:
-        class P(argparse.ArgumentParser):
-            def error(self, message):
-                raise _Exit(message)
+    try:
+        if emitter in ("class", "pydantic"):
+            cls = ns.get(node.name)
+            ann = dict(getattr(cls, "__annotations__", {}))
+            obs["annotations"] = [[k, repr(v)] for k, v in ann.items()]
+            # annotation object = eval of the emitted annotation expression (semantics), = eval of the described type string (oracle)
+            described = {n: p.get("typ") for n, p in case["ir"]["params"]}
+            if case["ir"]["returns"] is not None:
+                described["return_type"] = case["ir"]["returns"].get("typ")
+            obs["ann_is_described"] = {k: (same_obj(v, described[k]) if described.get(k) else None) for k, v in ann.items()}
+            obs["values"] = [[k, const_json(v)] for k, v in vars(cls).items() if not (k.startswith("__") and k.endswith("__"))]
+            obs["bases"] = [b.__name__ for b in cls.__bases__]
+        elif emitter == "function":
+            fn = ns.get(node.name)
+            sig = inspect.signature(fn)
+            kinds = {inspect.Parameter.POSITIONAL_OR_KEYWORD: "positional", inspect.Parameter.KEYWORD_ONLY: "kwonly",
+                     inspect.Parameter.VAR_KEYWORD: "varkw", inspect.Parameter.VAR_POSITIONAL: "varpos", inspect.Parameter.POSITIONAL_ONLY: "posonly"}
+            described = {n: p.get("typ") for n, p in case["ir"]["params"]}
+            ps = []
+            for p in sig.parameters.values():
+                ps.append({"name": p.name, "kind": kinds[p.kind],
+                           "default": None if p.default is inspect.Parameter.empty else const_json(p.default),
+                           "has_ann": p.annotation is not inspect.Parameter.empty,
+                           "ann_is_described": (same_obj(p.annotation, described[p.name]) if p.annotation is not inspect.Parameter.empty and described.get(p.name) else None)})
+            obs["sig"] = ps
+            obs["has_return_ann"] = sig.return_annotation is not inspect.Signature.empty
+            if obs["has_return_ann"] and case["ir"]["returns"] is not None and case["ir"]["returns"].get("typ"):
+                obs["return_is_described"] = same_obj(sig.return_annotation, case["ir"]["returns"]["typ"])
+        else:
+            class P(argparse.ArgumentParser):
+                def error(self, message):
+                    raise _Exit(message)
 
-        parser = P(prog="emitted", add_help=False)
-        try:
-            ns[node.name](parser)
-        except Exception as e:  # noqa
-            obs["populate"] = core.exc_name(e)
-            obs["populate_msg"] = str(e)[:200]
-            return obs
-        obs["description"] = parser.description
-        acts = []
-        for a in parser._actions:
-            acts.append({"dest": a.dest, "flags": list(a.option_strings), "type": None if a.type is None else getattr(a.type, "__name__", repr(a.type)),
-                         "choices": None if a.choices is None else [const_json(c) for c in a.choices], "default": const_json(a.default),
-                         "required": bool(a.required), "help": a.help, "cls": type(a).__name__, "nargs": a.nargs})
-        obs["actions"] = acts
-        parses = []
-        for argv in case["argvs"]:
-            flat = ["%s=%s" % (f, t) for f, t in argv]
+            parser = P(prog="emitted", add_help=False)
             try:
-                nsp = parser.parse_args(flat)
-                parses.append({"ok": [[k, const_json(v)] for k, v in vars(nsp).items()]})
-            except _Exit as e:
-                parses.append({"error": "exit", "msg": str(e)[:200]})
+                ns[node.name](parser)
             except Exception as e:  # noqa
-                parses.append({"error": core.exc_name(e), "msg": str(e)[:200]})
-        obs["parses"] = parses
-        probes = []
-        for idx, text in case["probes"]:
-            if idx >= len(parser._actions):
-                probes.append(None)
-                continue
-            a = parser._actions[idx]
-            try:
-                v = parser._get_value(a, text)
-                parser._check_value(a, v)
-                probes.append({"ok": const_json(v)})
-            except argparse.ArgumentError as e:
-                probes.append({"error": "rejected", "msg": str(e)[:120]})
-            except Exception as e:  # noqa
-                probes.append({"error": core.exc_name(e)})
-        obs["probes"] = probes
+                obs["populate"] = core.exc_name(e)
+                obs["populate_msg"] = str(e)[:200]
+                return obs
+            obs["description"] = parser.description
+            acts = []
+            for a in parser._actions:
+                acts.append({"dest": a.dest, "flags": list(a.option_strings), "type": None if a.type is None else getattr(a.type, "__name__", repr(a.type)),
+                             "choices": None if a.choices is None else [const_json(c) for c in a.choices], "default": const_json(a.default),
+                             "required": bool(a.required), "help": a.help, "cls": type(a).__name__, "nargs": a.nargs})
+            obs["actions"] = acts
+            parses = []
+            for argv in case["argvs"]:
+                flat = ["%s=%s" % (f, t) for f, t in argv]
+                try:
+                    nsp = parser.parse_args(flat)
+                    parses.append({"ok": [[k, const_json(v)] for k, v in vars(nsp).items()]})
+                except _Exit as e:
+                    parses.append({"error": "exit", "msg": str(e)[:200]})
+                except Exception as e:  # noqa
+                    parses.append({"error": core.exc_name(e), "msg": str(e)[:200]})
+            obs["parses"] = parses
+            probes = []
+            for idx, text in case["probes"]:
+                if idx >= len(parser._actions):
+                    probes.append(None)
+                    continue
+                a = parser._actions[idx]
+                try:
+                    v = parser._get_value(a, text)
+                    parser._check_value(a, v)
+                    probes.append({"ok": const_json(v)})
+                except argparse.ArgumentError as e:
+                    probes.append({"error": "rejected", "msg": str(e)[:120]})
+                except Exception as e:  # noqa
+                    probes.append({"error": core.exc_name(e)})
+            obs["probes"] = probes
+    except Exception as e:  # noqa  (observing the executed program failed: a property failure, not a harness error)
+        obs["observe"] = core.exc_name(e)
+        obs["observe_msg"] = str(e)[:200]
     return obs
 
 
@@ -788,6 +792,8 @@ def oracle(chk, case, obs, desc, fail):
         return fail(dict(base, field="to_code", kind="raises", error=obs["to_code"]), "to_code raised")
     if "compile" in obs:
         return fail(dict(base, field="compile", kind="raises", error=obs["compile"]), "emitted source does not compile")
+    if "observe" in obs:
+        return fail(dict(base, field="observe", kind="raises", error=obs["observe"]), "inspecting the executed program raised %s: %s" % (obs["observe"], obs.get("observe_msg")))
     if "exec" in obs or "populate" in obs:
         err = obs.get("exec") or obs.get("populate")
         return fail(dict(base, field="exec", kind="raises", error=err), "executing the emitted source raised %s: %s" % (err, obs.get("exec_msg") or obs.get("populate_msg")))
@@ -1043,7 +1049,7 @@ def evaluate(chk, cases, obs_list, models, descs, stats):
                 n_ast += 1
                 chk.disagreement("C04 correspondence 1: emitter decisions (%s)" % ("class" if emitter == "pydantic" else emitter), case, diff["real"], diff["model"])
             # ---- correspondence 2: semantics ----
-            elif "compile" not in obs and "exec" not in obs and "to_code" not in obs:
+            elif "compile" not in obs and "exec" not in obs and "to_code" not in obs and "observe" not in obs:
                 if emitter == "argparse" and ("populate" in obs or "error" in (model.get("actions") or {})):
                     m_err = (model.get("actions") or {}).get("error", "")
                     if m_err.startswith("unsupported"):
@@ -1170,6 +1176,29 @@ def describe_request(case):
     return {"op": "c04.describe", "ir": case["dir"], "cfg": func_cfg(case["cfg"]), "probes": case["probes"]}
 
 
+def _worker_problem(o):
+    return o is None or o.get("timeout") or o.get("skipped") or (o.get("error") and "emit" not in o)
+
+
+def guarded_cases(cases, stats):
+    """Run the cases in forked workers.  Time must not turn into a verdict under machine load: the first pass has a generous per-item limit
+    (an item normally takes milliseconds; the first one of a worker pays the imports of cdd and black), and every item that did not come back
+    (timeout, skipped after several timeouts, crashed worker) is run again, few at a time, with a very long limit.  Only an item that still
+    does not return then is reported as non-terminating; a worker that cannot produce a result at all is a harness problem (exit 2)."""
+    obs = core.guarded_map(run_case, cases, per_item_timeout=120.0, max_timeouts=8)
+    bad = [k for k, o in enumerate(obs) if _worker_problem(o)]
+    if bad:
+        stats["worker_retries"] = stats.get("worker_retries", 0) + len(bad)
+        again = core.guarded_map(run_case, [cases[k] for k in bad], per_item_timeout=600.0, nproc=4, max_timeouts=8)
+        for k, o in zip(bad, again):
+            obs[k] = o
+        still = [k for k in bad if _worker_problem(obs[k]) and not (obs[k] or {}).get("timeout")]
+        if still:
+            raise core.HarnessError("worker produced no result for %d cases even on retry (first: %s → %s)"
+                                    % (len(still), json.dumps(cases[still[0]])[:300], obs[still[0]]))
+    return obs
+
+
 def run_batch(chk, cases, stats):
     descs = [None] * len(cases)
     dom = [k for k, c in enumerate(cases) if c.get("dir") is not None]
@@ -1200,7 +1229,7 @@ def run_batch(chk, cases, stats):
             av = legal_argv(chk.rng, c["dir"], legal_of)
             if av is not None and c["dir"]["params"]:
                 c["argvs"] = [[], av]
-    obs = core.guarded_map(run_case, cases, per_item_timeout=20.0)
+    obs = guarded_cases(cases, stats)
     for c, o in zip(cases, obs):
         if c.get("dir") is not None and c["emitter"] == "argparse" and len(c["argvs"]) > 1 and o and "probes" in o:
             ok_texts = {(idx, t) for (idx, t), pr in zip(c["probes"], o["probes"]) if pr and "ok" in pr}
